@@ -774,7 +774,7 @@ def _gen_stack(rng):
 
 
 def gen_cases(rng, tier):
-    n = 260 if tier == 'quick' else 4000
+    n = 320 if tier == 'quick' else 4000
     out = []
     for i in range(n):
         r = rng.random()
